@@ -142,8 +142,7 @@ def dec(line):
     return go()
 
 
-def run_model(requests, timeout=600):
-    """requests: list of (name, arg). Returns list of decoded replies."""
+def _run_model_1(requests, timeout):
     exe = os.path.join(OCAML, "model_main")
     data = "\n".join(enc([name, arg]) for name, arg in requests) + "\n"
     p = subprocess.run(["bash", "-c", "ulimit -s unlimited 2>/dev/null; exec " + exe], input=data,
@@ -155,6 +154,21 @@ def run_model(requests, timeout=600):
         raise RuntimeError("model returned %d replies for %d requests (rc=%s): %s"
                            % (len(lines), len(requests), p.returncode, p.stderr[-500:]))
     return [dec(l) for l in lines]
+
+
+def run_model(requests, timeout=600):
+    """requests: list of (name, arg). Returns list of decoded replies (in order).  The extracted model answers one request per
+    line and keeps nothing between requests, so a long list is cut into contiguous shards that run side by side."""
+    requests = list(requests)
+    shards = min(12, len(requests) // 400)
+    if shards < 2:
+        return _run_model_1(requests, timeout)
+    import concurrent.futures as cf
+    size = -(-len(requests) // shards)
+    parts = [requests[i:i + size] for i in range(0, len(requests), size)]
+    with cf.ThreadPoolExecutor(max_workers=len(parts)) as ex:
+        outs = list(ex.map(lambda part: _run_model_1(part, timeout), parts))
+    return [v for out in outs for v in out]
 
 
 def is_model_error(v):
